@@ -161,8 +161,11 @@ class LoadLog(object):
         # and Data.coords is set to Coordinates or None, we need to set
         # force_coords to True to make sure that we always restore world
         # coordinate components even if the transform is an identity transform.
+        # Note that the log is shared by all the datasets loaded from the file,
+        # so we only consider the components of the first dataset here.
         n_coords = len([comp for comp in self.components
-                        if isinstance(comp, CoordinateComponent)])
+                        if isinstance(comp, CoordinateComponent) and
+                        comp._data is self.data[0]])
         if n_coords == self.components[0].ndim * 2:
             force_coords = True
         else:
